@@ -43,7 +43,10 @@ Init == /\ chosen \in {c \in [Procs -> 0..N] :
                           /\ c[1] # 0
                           /\ \A p \in 1..(K - 1) : (c[p + 1] = 0 \/ c[p] <= c[p + 1])
                           /\ \A p, q \in Procs : (c[p] # 0 /\ c[q] # 0) => Progs[c[p]].scen = Progs[c[q]].scen
-                          /\ Cardinality({p \in Procs : c[p] # 0}) >= 2}
+                          /\ Cardinality({p \in Procs : c[p] # 0}) >= 2
+                          \* programs that share no mutex cannot wait for each other
+                          /\ \A p \in Procs : c[p] # 0 =>
+                                \E q \in Procs \ {p} : c[q] # 0 /\ MutexesOf(c[p]) \cap MutexesOf(c[q]) # {}}
         /\ pc = [p \in Procs |-> 1]
         \* only the mutexes of the chosen programs are part of the state
         /\ w = [m \in UNION {MutexesOf(chosen[p]) : p \in {q \in Procs : chosen[q] # 0}} |-> 0]
